@@ -75,7 +75,8 @@ class PlainName:
                     if id(inherited) in visited:
                         continue
                     result = _inner_resolve_link_rule_ref(inherited, obj_name)
-                    if result:
+                    # the object may be falsy (e.g. user class with __len__)
+                    if result is not None:
                         return result
             elif cls._tx_type == RULE_COMMON and id(cls) in get_parser(obj)._instances:
                 # TODO make this code exchangable
